@@ -137,7 +137,16 @@ static void exhaustiveCase(uint64_t idx, CaseResult &r, int maxL) {
 static void randomCase(Rng &rng, CaseResult &r, bool big) {
   int b, e;
   std::vector<int> w, t;
-  if (!big) {
+  if (!big && rng.chance(0.25)) {
+    // sparse long row, targets in increasing order and spread out: many separate clusters are alive at the same time
+    int L = (int)rng.range(200, 3000);
+    b = (int)rng.range(-100, 100);
+    e = b + L;
+    int n = (int)rng.range(8, 60);
+    for (int i = 0; i < n; ++i) { w.push_back((int)rng.range(1, 3)); t.push_back((int)rng.range(b - 5, e + 5)); }
+    std::sort(t.begin(), t.end());
+    if (rng.chance(0.3)) for (int i = 0; i < n; ++i) if (rng.chance(0.15)) t[i] = (int)rng.range(b - 5, e + 5);  // a few out-of-order late comers
+  } else if (!big) {
     int L = (int)rng.range(1, rng.chance(0.3) ? 2000 : 60);
     b = (int)rng.range(-100, 100);
     e = b + L;
